@@ -78,3 +78,13 @@ Theorem C17_newest_metadata_stays : forall mc evs d, In d (dels (ring (mrun mc e
   exists x, In x (keys (recs (d_pre d))) /\ x <> d_path d /\ pg x = pg (d_path d) /\ pk (d_path d) <= pk x.
 Proof. exact newest_metadata_stays. Qed.
 Print Assumptions C17_newest_metadata_stays.
+
+(* ---- T15: the model's handler list IS the list DigitalRFMirror.__init__ builds (regenerated from
+   mirror.py on every run): same order, same kind of handler, same set of files each reacts to *)
+From DRF Require Import Model.MirrorInitBase Gen.MirrorInitGen Proofs.MirrorInitGenProofs.
+Theorem C17_handlers_are_the_regenerated_list : forall mc p,
+  map (fun hf : hnd * (path -> bool) => (Some (fst hf), snd hf p)) (handlers mc)
+  = map (fun gf : gfun * gflags => (g_hnd mc (fst gf), g_match (snd gf) p))
+        (gen_event_handlers (is_move mc) (m_drf mc) (m_dmd mc)).
+Proof. exact mirror_handlers_regen. Qed.
+Print Assumptions C17_handlers_are_the_regenerated_list.
